@@ -112,7 +112,8 @@ func dateLayoutLanguages(e *Env, rule string, extra ...string) *dateLayout {
 			return 0, true, true // limit disabled: the guard is C18.L's business
 		case strings.HasPrefix(as, "len((*regexp.Regexp).FindSubmatch(") && bs == "0":
 			return 1, true, true // the pattern matched
-		case strings.Contains(as, "#") && strings.Contains(bs, "strconv.Atoi"), strings.Contains(bs, "#") && strings.Contains(as, "strconv.Atoi"):
+		case strings.Contains(as, "#") && strings.Contains(bs, "strconv.Atoi"), strings.Contains(bs, "#") && strings.Contains(as, "strconv.Atoi"),
+			strings.Contains(as, "New(") && strings.Contains(bs, "strconv.Atoi"), strings.Contains(bs, "New(") && strings.Contains(as, "strconv.Atoi"):
 			return 0, true, true // calendar round-trip guard passes (decided by C09.valid)
 		}
 		return 0, false, false
